@@ -591,6 +591,7 @@ func litestream.(*DB).sync(db, ctx, checkpointing, exec, info, maxSyncWALBytes) 
   at ltx.(*Encoder).EncodeHeader#1 set sync_off = $arg0.WALOffset
   at ltx.(*Encoder).EncodeHeader#1 set sync_sz = $arg0.WALSize
   at ltx.(*Encoder).EncodeHeader#1 set sync_hdr = true
+  at litestream.(*WALReader).pageMap#1 assert [C02.snapshot-unbounded] info.snapshotting ==> $arg1 == 0     // a snapshot TXID is the database file plus the whole committed WAL, never a bounded chunk of it
   at litestream.(*DB).writeLTXFromDB#1 assert [C01.pages-snapshot] info.snapshotting && $arg1 == enc && $arg2 == walFile && $arg3 == commit && $arg4 == pageMap
   at litestream.(*DB).writeLTXFromWAL#1 assert [C01.pages-incremental] !info.snapshotting && $arg1 == enc && $arg2 == walFile && $arg3 == info.prevCommit && $arg4 == commit && $arg5 == pageMap
   at os.Rename#all assert [C03.publish-from-tmp] $arg0 == tmpFilename && $arg1 == filename && !pub_renamed
@@ -1207,13 +1208,16 @@ func litestream.(*VFSFile).pollReplicaClient(f, ctx) (err)
   at litestream.(*VFSFile).pollLevel#2 set c18_l1max = $result0
   ensures [C18.pos-after-poll] err == nil && old(f.targetTime) == nil ==> f.pos.TXID == max(c18_l0max, c18_l1max) && f.maxTXID1 == c18_l1max
   ensures [C18.index-within-commit-after-poll] err == nil && old(f.targetTime) == nil && old(f.lockType) < 1 && old(forall p int :: {has(f.index, p)} has(f.index, p) ==> p <= f.commit) ==> (forall p int :: {has(f.index, p)} has(f.index, p) ==> p <= f.commit)
-  loop 0 invariant f == old(f) && combined != nil && idx0 != nil && idx0 != combined && fresh(combined) && !replaceIndex && f.index == old(f.index) && f.commit == old(f.commit) && pidom(f.index) == old(pidom(f.index))
+  ensures [C18.pending-within-commit-after-poll] err == nil && old(f.targetTime) == nil && old(f.lockType) >= 1 && old(forall p int :: {has(f.pending, p)} has(f.pending, p) ==> p <= f.commit) ==> (forall p int :: {has(f.pending, p)} has(f.pending, p) ==> p <= f.commit)
+  loop 0 invariant f == old(f) && combined != nil && idx0 != nil && idx0 != combined && fresh(combined) && !replaceIndex && f.index == old(f.index) && f.commit == old(f.commit) && pidom(f.index) == old(pidom(f.index)) && f.pending == old(f.pending) && pidom(f.pending) == old(pidom(f.pending)) && f.lockType == old(f.lockType)
   loop 0 invariant (forall p int :: {has(combined, p)} has(combined, p) ==> p <= commit0) && (forall p int :: {has(idx0, p)} has(idx0, p) ==> p <= commit0)
-  loop 1 invariant f == old(f) && combined != nil && idx1 != nil && idx1 != combined && f.index == old(f.index) && f.commit == old(f.commit) && pidom(f.index) == old(pidom(f.index)) && combined != f.index
+  loop 1 invariant f == old(f) && combined != nil && idx1 != nil && idx1 != combined && f.index == old(f.index) && f.commit == old(f.commit) && pidom(f.index) == old(pidom(f.index)) && combined != f.index && f.pending == old(f.pending) && pidom(f.pending) == old(pidom(f.pending)) && combined != f.pending && f.lockType == old(f.lockType)
   loop 1 invariant (forall p int :: {has(combined, p)} has(combined, p) ==> p <= max(newCommit, commit1)) && (forall p int :: {has(idx1, p)} has(idx1, p) ==> p <= commit1)
   loop 1 invariant !replaceIndex ==> newCommit >= old(f.commit)
   loop 2 invariant f == old(f) && combined != nil && target != nil && combined != target && (targetIsMain ==> target == f.index) && f.commit == old(f.commit) && (old(f.lockType) < 1 ==> targetIsMain) && (!replaceIndex ==> newCommit >= old(f.commit))
   loop 2 invariant (forall p int :: {has(combined, p)} has(combined, p) ==> p <= newCommit)
+  loop 2 invariant (!targetIsMain ==> target == f.pending) && (old(f.lockType) >= 1 ==> !targetIsMain)
+  loop 2 invariant !targetIsMain && old(forall p int :: {has(f.pending, p)} has(f.pending, p) ==> p <= f.commit) ==> (forall p int :: {has(f.pending, p)} has(f.pending, p) ==> p <= (replaceIndex ? newCommit : ((len(combined) > 0 && newCommit > f.commit) ? newCommit : f.commit)))
   loop 2 invariant targetIsMain && old(forall p int :: {has(f.index, p)} has(f.index, p) ==> p <= f.commit) ==> (forall p int :: {has(f.index, p)} has(f.index, p) ==> p <= (replaceIndex ? newCommit : ((len(combined) > 0 && newCommit > f.commit) ? newCommit : f.commit)))
 
 // ---------------------------------------------------------------------------
@@ -1258,4 +1262,20 @@ func litestream.defaultOpenLTXFile(name, flag, perm) (f, err)
   modifies $alloc, path_handle, path_synced
   at os.OpenFile#1 assert [C11.staging-open-args] $arg0 == name && $arg1 == flag && $arg2 == perm
   ensures [C11.staging-is-osfile] err == nil ==> f != nil && dyntype(f) == typeid("*os.File")
+
+// How far a snapshot may read the WAL after a restart (no in-memory cursor): up to the extent recorded by the
+// newest local level-0 file if, and only if, both salts of the live WAL header equal the ones recorded there.
+ghost swe_s1 Int
+ghost swe_s2 Int
+ghost swe_read Bool
+func litestream.(*DB).snapshotWALEndOffset(db, pos) (off, err)
+  requires db != nil && !swe_read
+  modifies $alloc, file_closed, swe_s1, swe_s2, swe_read, all(ltx.Decoder), all(ltx.Header), all(ltx.Trailer), all(litestream.LTXError), all(ltx.PageHeader), all(ltx.PageIndexElem), key("Elem_string"), key("Elem_uint8")
+  at binary.(bigEndian).Uint32#1 set swe_s1 = $result0
+  at binary.(bigEndian).Uint32#2 set swe_s2 = $result0
+  at binary.(bigEndian).Uint32#2 set swe_read = true
+  ensures [C02.snap-end-inmemory] old(db.syncState.lastSyncedWALOffset) > 0 ==> err == nil && off == old(db.syncState.lastSyncedWALOffset)
+  ensures [C02.snap-end-first] old(db.syncState.lastSyncedWALOffset) <= 0 && pos.TXID == 0 ==> err == nil && off == 32
+  ensures [C02.snap-end-match] err == nil && swe_read && swe_s1 == dec.header.WALSalt1 && swe_s2 == dec.header.WALSalt2 ==> off == i64(dec.header.WALOffset + dec.header.WALSize)
+  ensures [C02.snap-end-mismatch] err == nil && swe_read && (swe_s1 != dec.header.WALSalt1 || swe_s2 != dec.header.WALSalt2) ==> off == 32
 */
